@@ -225,6 +225,11 @@ def parse_mc3(
     if rounds.startswith(_UZERO) and rounds != _UZERO:
         raise exc.ZeroPaddedRoundsError(handler)
     if rounds:
+        # NOTE: int() would also accept a sign, surrounding blanks, "_" separators
+        #       and non-ascii digits, none of which is a canonical rendering.
+        digits = HEX_CHARS if rounds_base == 16 else "0123456789"
+        if rounds_base in (10, 16) and not all(c in digits for c in rounds):
+            raise exc.MalformedHashError(handler, "malformed rounds field")
         rounds = int(rounds, rounds_base)
     elif default_rounds is None:
         raise exc.MalformedHashError(handler, "empty rounds field")
